@@ -229,7 +229,8 @@ def np_hstack(interp, st, fr, args, kw):
 @model('numpy.isscalar')
 def np_isscalar(interp, st, fr, args, kw):
     x = args[0]
-    return isinstance(x, (int, float, Sc, bool, str))
+    import fractions
+    return isinstance(x, (int, float, Sc, bool, str, fractions.Fraction))
 
 
 @model('numpy.searchsorted')
@@ -374,16 +375,59 @@ def _mod(a, b):
     return wrap(to_z3(a, 'int') % to_z3(b, 'int'))
 
 
+_PL = {}
+sym.RESET_HOOKS.append(_PL.clear)
+
+
+def interp_function(st, xp, fp):
+    """The piecewise-linear interpolant F of the table (xp, fp) as a named function Real -> Real
+    (one symbol per table), with np.interp's dependency contract as hypotheses:
+      for every tabulated segment [xp[k], xp[k+1]] containing v:  F(v) = the line through its end points at v;
+      every v inside [xp[0], xp[-1]] lies in some tabulated segment (xp strictly increasing)."""
+    ps, pf, _ = npm.info(st, xp)
+    fs, ff, _ = npm.info(st, fp)
+    n = ps[0]
+    K0 = Sc(z3.Int('K!'))
+    key = '|'.join(str(getattr(v, 't', v)) for v in (pf((K0,)), ff((K0,)))) + '|' + str(getattr(n, 't', n))
+    if key not in _PL:
+        idx = len(_PL)
+        _PL[key] = (z3.Function('PL%d' % idx, z3.RealSort(), z3.RealSort()), z3.Function('PLseg%d' % idx, z3.RealSort(), z3.IntSort()))
+    F, SEG = _PL[key]
+    f = lambda v: Sc(F(to_z3(v, 'real')))
+    seg = lambda v: Sc(SEG(to_z3(v, 'real')))
+    tag = ('pl', key)
+    if tag not in st.tags:
+        st.tags.add(tag)
+        nm1 = arith('-', n, 1)
+
+        def ax(v, k):
+            x0, x1 = pf((k,)), pf((arith('+', k, 1),))
+            y0, y1 = ff((k,)), ff((arith('+', k, 1),))
+            lin = arith('+', y0, arith('*', arith('-', v, x0), arith('/', arith('-', y1, y0), arith('-', x1, x0))))
+            return implies(band(compare('<=', x0, v), compare('<=', v, x1)), compare('==', f(v), lin))
+        fa = Forall(['real', nm1], ax, name='np.interp.linear')
+        st.assume(fa)
+
+        def ex(v):
+            k = seg(v)
+            inside = band(compare('>=', v, pf((0,))), compare('<=', v, pf((nm1,))))
+            return implies(band(inside, compare('>=', n, 2)), band(band(compare('<=', 0, k), compare('<', k, nm1)),
+                                                                  band(compare('<=', pf((k,)), v), compare('<=', v, pf((arith('+', k, 1),))))))
+        fb = Forall(['real'], ex, name='np.interp.bracket')
+        fb.extra_pos = [{(F.name(), 0)}]        # trigger: wherever the interpolant is applied
+        st.assume(fb)
+    return f
+
+
 @model('numpy.interp')
 def np_interp(interp, st, fr, args, kw):
-    """np.interp(x, xp, fp, left, right) for increasing xp: the piecewise-linear
-    interpolant, `left`/`right` (default fp[0]/fp[-1]) outside [xp[0], xp[-1]].
-    Encoded with an uninterpreted bracket index and its defining contract."""
+    """np.interp(x, xp, fp, left, right) for strictly increasing xp (an obligation): F(x) with F
+    the named interpolant of the table (see interp_function); `left`/`right` (default
+    fp[0]/fp[-1]) outside the table."""
     USED.add('numpy.interp')
     x, xp, fp = [_arr(interp, st, a) for a in args[:3]]
     left = kw.get('left')
     right = kw.get('right')
-    xu = None
     if isinstance(xp, Quantity) or isinstance(x, Quantity):
         if not (isinstance(xp, Quantity) and isinstance(x, Quantity)):
             raise Raised('UnitConversionError', 'np.interp')
@@ -397,56 +441,19 @@ def np_interp(interp, st, fr, args, kw):
     n = ps[0]
     npm.same_dim(st, n, fs[0])
     nm1 = arith('-', n, 1)
+    st.oblige('safe.interp_xp_increasing', Forall([n, n], lambda k, l: implies(compare('<', k, l), compare('<', pf((k,)), pf((l,)))), name='increasing'), kind='safe')
+    st.oblige('safe.interp_nonempty', compare('>=', n, 1), kind='safe')
+    F = interp_function(st, xp, fp)
+    lo = ff((0,)) if left is None else left
+    hi = ff((nm1,)) if right is None else right
 
-    def one(v):
-        k = fresh_int('seg')
-        # bracket: xp[k] <= v <= xp[k+1]  for some 0 <= k < n-1 (when inside)
-        inside = band(compare('>=', v, pf((0,))), compare('<=', v, pf((nm1,))))
-        st.assume(implies(inside, band(band(compare('<=', 0, Sc(k)), compare('<', Sc(k), nm1)),
-                                       band(compare('<=', pf((Sc(k),)), v), compare('<=', v, pf((arith('+', Sc(k), 1),)))))))
-        x0, x1 = pf((Sc(k),)), pf((arith('+', Sc(k), 1),))
-        y0, y1 = ff((Sc(k),)), ff((arith('+', Sc(k), 1),))
-        r = fresh_real('interp')
-        lin = arith('+', y0, arith('*', arith('-', v, x0), arith('/', arith('-', y1, y0), arith('-', x1, x0))))
-        st.assume(implies(band(inside, compare('!=', x1, x0)), compare('==', Sc(r), lin)))
-        st.assume(implies(band(inside, compare('==', x1, x0)), bor(compare('==', Sc(r), y0), compare('==', Sc(r), y1))))
-        lo = ff((0,)) if left is None else left
-        hi = ff((nm1,)) if right is None else right
-        return ite(compare('<', v, pf((0,))), lo, ite(compare('>', v, pf((nm1,))), hi, Sc(r)))
+    def val(v):
+        return ite(compare('<', v, pf((0,))), lo, ite(compare('>', v, pf((nm1,))), hi, F(v)))
     if is_array(x):
         xs, xf, _ = npm.info(st, x)
-        if all(isinstance(d, int) for d in xs) and len(xs) == 1 and xs[0] <= 4:
-            vals = [one(xf((i,))) for i in range(xs[0])]
-            res = npm.from_list(st, vals)
-        else:
-            # symbolic-length query: per-element contract through uninterpreted functions
-            if len(xs) != 1:
-                raise Unsupported("np.interp on n-d query")
-            K = z3.Function(fresh_name('seg'), z3.IntSort(), z3.IntSort())
-            R = z3.Function(fresh_name('interp'), z3.IntSort(), z3.RealSort())
-            kk = lambda q: Sc(K(to_z3(q, 'int')))
-            rr = lambda q: Sc(R(to_z3(q, 'int')))
-
-            def ax(q):
-                v = xf((q,))
-                inside = band(compare('>=', v, pf((0,))), compare('<=', v, pf((nm1,))))
-                k = kk(q)
-                x0, x1 = pf((k,)), pf((arith('+', k, 1),))
-                y0, y1 = ff((k,)), ff((arith('+', k, 1),))
-                lin = arith('+', y0, arith('*', arith('-', v, x0), arith('/', arith('-', y1, y0), arith('-', x1, x0))))
-                return [implies(inside, band(band(compare('<=', 0, k), compare('<', k, nm1)), band(compare('<=', x0, v), compare('<=', v, x1)))),
-                        implies(band(inside, compare('!=', x1, x0)), compare('==', rr(q), lin)),
-                        implies(band(inside, compare('==', x1, x0)), bor(compare('==', rr(q), y0), compare('==', rr(q), y1)))]
-            st.assume(Forall([xs[0]], ax, name='np.interp'))
-            lo = ff((0,)) if left is None else left
-            hi = ff((nm1,)) if right is None else right
-
-            def g(idx):
-                v = xf((idx[0],))
-                return ite(compare('<', v, pf((0,))), lo, ite(compare('>', v, pf((nm1,))), hi, rr(idx[0])))
-            res = PureArr((xs[0],), g, 'real')
+        res = PureArr(tuple(xs), lambda idx: val(xf(tuple(idx))), 'real')
     else:
-        res = one(x)
+        res = val(x)
     return Quantity(res, funit) if funit is not None else res
 
 
@@ -525,9 +532,9 @@ def b_float(interp, st, fr, args, kw):
     if isinstance(x, str):
         return float(x)
     if isinstance(x, bool):
-        return float(x)
+        return int(x)
     if isinstance(x, int):
-        return float(x)
+        return x
     if isinstance(x, Sc) and x.is_int:
         return wrap(z3.ToReal(x.t))
     if is_array(x):
@@ -576,7 +583,7 @@ def b_isinstance(interp, st, fr, args, kw):
             return True
         if name in ('builtins.dict',) and isinstance(x, DictRef):
             return True
-        if name in ('builtins.float',) and isinstance(x, float):
+        if name in ('builtins.float',) and (isinstance(x, float) or type(x).__name__ == 'Fraction'):
             return True
         if name in ('builtins.int',) and isinstance(x, int) and not isinstance(x, bool):
             return True
@@ -609,7 +616,7 @@ def b_type(interp, st, fr, args, kw):
         return TypeVal(st.heap[x.addr].cls)
     if x is None:
         return TypeVal('NoneType')
-    if isinstance(x, (float,)) or (isinstance(x, Sc) and x.is_real):
+    if isinstance(x, (float,)) or type(x).__name__ == 'Fraction' or (isinstance(x, Sc) and x.is_real):
         return TypeVal('builtins.float')
     if isinstance(x, bool):
         return TypeVal('builtins.bool')
